@@ -3,7 +3,7 @@
 //! real chain; per variable the recorded sequence and the backend's output go to Model/Storage.lean.
 use crate::storage::*;
 use crate::util::*;
-use arrow::array::{Array as ArrowArray, BooleanArray, Float32Array, Float64Array, Int64Array, LargeListArray, StringArray, UInt64Array};
+use arrow::array::Array as ArrowArray;
 use nuts_rs::{ArrowConfig, CsvConfig, HashMapConfig, HashMapValue, NdarrayConfig, NdarrayValue, ZarrConfig};
 use serde_json::json;
 use std::collections::BTreeMap;
@@ -27,23 +27,7 @@ fn nd_slot(v: &NdarrayValue, chain: usize, k: usize) -> Vec<Cell> {
         NdarrayValue::I64(a) => sl!(a, |x: &i64| Cell::I(*x)), NdarrayValue::U64(a) => sl!(a, |x: &u64| Cell::U(*x)), NdarrayValue::String(a) => sl!(a, |x: &String| Cell::S(x.clone())) }
 }
 
-fn arrow_scalar(a: &dyn ArrowArray, i: usize) -> Option<Vec<Cell>> {
-    if a.is_null(i) { return None; }
-    let any = a.as_any();
-    if let Some(x) = any.downcast_ref::<Float64Array>() { return Some(vec![Cell::F(x.value(i).to_bits())]); }
-    if let Some(x) = any.downcast_ref::<Float32Array>() { return Some(vec![Cell::F32(x.value(i).to_bits())]); }
-    if let Some(x) = any.downcast_ref::<UInt64Array>() { return Some(vec![Cell::U(x.value(i))]); }
-    if let Some(x) = any.downcast_ref::<Int64Array>() { return Some(vec![Cell::I(x.value(i))]); }
-    if let Some(x) = any.downcast_ref::<BooleanArray>() { return Some(vec![Cell::B(x.value(i))]); }
-    if let Some(x) = any.downcast_ref::<StringArray>() { return Some(vec![Cell::S(x.value(i).to_string())]); }
-    if let Some(l) = any.downcast_ref::<LargeListArray>() {
-        let inner = l.value(i);
-        let mut out = vec![];
-        for j in 0..inner.len() { out.extend(arrow_scalar(inner.as_ref(), j).unwrap_or_default()); }
-        return Some(out);
-    }
-    Some(vec![Cell::S(format!("?{:?}", a.data_type()))])
-}
+use crate::storage::arrow_scalar;
 
 /// per variable: the recorded sequence
 fn recorded_var(recs: &[DrawRecord], name: &str, stats: bool) -> Vec<(bool, Option<Vec<Cell>>)> {
